@@ -522,3 +522,184 @@ theorem despawn_stable_run {p : Prog} {hh : Hist} (e : Nat) {s s' : St}
     · exact absurd (Or.inl h1) hq
 
 end Cobweb
+
+namespace Cobweb
+
+/-- Commands that may edit the entity-world-reactor local data of entity `e`. -/
+def touchesLocal (e : Nat) : Cmd → Prop
+  | .ewrInsertLocal e' _ _ => e' = e
+  | .ewrCleanupData _ e' _ => e' = e
+  | _ => False
+
+/-- The local data of `e` is unchanged, or `e` died in this step. -/
+def LocStep (e : Nat) (s s' : St) : Prop := s'.ewLocal e = s.ewLocal e ∨ (s.alive e = true ∧ s'.alive e = false)
+
+theorem LocStep.post {e : Nat} {s s1 s2 : St} (h : LocStep e s s1) (h1 : s2.ewLocal = s1.ewLocal) (h2 : s2.alive = s1.alive) :
+    LocStep e s s2 := by
+  rcases h with h | h
+  · exact Or.inl (by rw [h1, h])
+  · exact Or.inr ⟨h.1, by rw [h2]; exact h.2⟩
+
+theorem LocStep.pre {e : Nat} {s s1 s2 : St} (h1 : s1.ewLocal = s.ewLocal) (h2 : s1.alive = s.alive) (h : LocStep e s1 s2) :
+    LocStep e s s2 := by
+  rcases h with h | h
+  · exact Or.inl (by rw [h, h1])
+  · exact Or.inr ⟨by rw [← h2]; exact h.1, h.2⟩
+
+theorem kill_ewLocal_other (s : St) (e x : Nat) (h : x ≠ e) : (kill s e).ewLocal x = s.ewLocal x := by
+  simp [kill, h]
+
+theorem locStep_kill (s : St) (e x : Nat) (ha : s.alive e = true) : LocStep x s (kill s e) := by
+  by_cases hx : x = e
+  · subst hx; exact Or.inr ⟨ha, by simp⟩
+  · exact Or.inl (kill_ewLocal_other s e x hx)
+
+theorem locStep_despawn1 (s : St) (e x : Nat) : LocStep x s (despawn1 s e) := by
+  unfold despawn1
+  split
+  · rename_i h; exact locStep_kill s e x h
+  · exact Or.inl rfl
+
+theorem locStep_tryCleanupData (s : St) (d x : Nat) : LocStep x s (tryCleanupData s d) := by
+  by_cases hx : x = d
+  · subst hx
+    unfold tryCleanupData
+    split
+    · rename_i ha
+      split
+      · split
+        · exact Or.inl rfl
+        · dsimp only
+          split
+          · exact Or.inr ⟨ha, by simp⟩
+          · exact Or.inl rfl
+      · exact Or.inl rfl
+    · exact Or.inl rfl
+  · left
+    unfold tryCleanupData
+    (repeat' split) <;> first | rfl | (dsimp only; split <;> first | rfl | (rw [kill_ewLocal_other _ _ _ hx]))
+
+theorem locStep_cleanupK (s : St) (k : Kind) (x : Nat) : LocStep x s (cleanupK s k) := by
+  unfold cleanupK
+  cases k <;> dsimp only
+  · exact Or.inl rfl
+  · exact LocStep.pre (s1 := ({ s with trkSys := { s.trkSys with reacting := false } } : St)) rfl rfl (locStep_despawn1 _ _ x)
+  · exact Or.inl rfl
+  · split <;> exact Or.inl (by simp)
+  · exact LocStep.pre (s1 := ({ s with trkEnt := { s.trkEnt with reacting := false }, trkEvt := { s.trkEvt with reacting := false } } : St)) rfl rfl
+      (locStep_tryCleanupData _ _ x)
+  · exact LocStep.pre (s1 := ({ s with trkEvt := { s.trkEvt with reacting := false } } : St)) rfl rfl (locStep_tryCleanupData _ _ x)
+
+theorem applyCmd_loc_other (s : St) (c : Cmd) (e : Nat) (h : ¬ touchesLocal e c) : LocStep e s (applyCmd s c) := by
+  cases c with
+  | ewrInsertLocal e' wr v =>
+    have hne : e ≠ e' := fun h' => h h'.symm
+    simp only [applyCmd]; split <;> exact Or.inl (by simp [hne])
+  | ewrCleanupData sys e' wr =>
+    have hne : e ≠ e' := fun h' => h h'.symm
+    simp only [applyCmd]; split <;> (try split) <;> exact Or.inl (by simp [hne])
+  | revoke sys trigs => simp only [applyCmd]; exact Or.inl (by simp)
+  | register trigs sys mode => simp only [applyCmd]; cases mode <;> exact Or.inl (by simp [St.push])
+  | regType t ty hd => simp only [applyCmd]; split <;> eclose
+  | regEnt rt e' hd => simp only [applyCmd]; split <;> (try split) <;> eclose
+  | regDsp e' hd => simp only [applyCmd]; split <;> eclose
+  | cleanup k => simp only [applyCmd]; exact locStep_cleanupK s k e
+  | despawn e' => simp only [applyCmd]; exact locStep_despawn1 s e' e
+  | broadcast ty' pid => simp only [applyCmd]; split <;> eclose
+  | entityEvent e' ty' pid => simp only [applyCmd]; split <;> eclose
+  | _ => simp only [applyCmd] <;> (try split) <;> eclose
+
+theorem runFrame_loc (p : Prog) (hh : Hist) (s : St) (f : Frame) (e : Nat)
+    (h : ∀ c cs, f = .batch (c :: cs) → ¬ touchesLocal e c) : LocStep e s (runFrame p hh s f) := by
+  cases f with
+  | batch cs =>
+    cases cs with
+    | nil => exact Or.inl rfl
+    | cons c cs =>
+      simp only [runFrame, doBatch]
+      exact LocStep.pre (s1 := s.push [.flush, .batch cs]) rfl rfl (applyCmd_loc_other _ c e (h c cs rfl))
+  | flush => simp only [runFrame, doFlush]; split <;> eclose
+  | bodyActs sys k i acc => simp only [runFrame, doBodyActs]; split <;> exact Or.inl (by simp [St.push, St.emit])
+  | exclActs sys i => simp only [runFrame, doExclActs]; split <;> exact Or.inl (by simp [St.push, St.emit])
+  | topActs t i => simp only [runFrame, doTopActs]; split <;> exact Or.inl (by simp [St.push, St.emit])
+  | cleanup k => exact locStep_cleanupK s k e
+  | onceTail sys =>
+    simp only [runFrame, doOnceTail]
+    exact (locStep_despawn1 s sys e).post rfl rfl
+  | dropCallback sys => exact Or.inl rfl
+  | runnerStart sys k => exact Or.inl rfl
+  | runnerLookup sys k idx =>
+    simp only [runFrame, doRunnerLookup]
+    (repeat' split) <;> exact Or.inl (by simp [St.push, St.emit])
+  | afterBody sys idx => exact Or.inl rfl
+  | reinsert sys idx => simp only [runFrame, doReinsert]; (repeat' split) <;> eclose
+  | replayTake sys idx => exact Or.inl rfl
+  | replayLoop sys r kept idx => simp only [runFrame, doReplayLoop]; (repeat' split) <;> eclose
+  | finish sys idx => simp only [runFrame, doFinish]; (repeat' split) <;> eclose
+  | abort sys k =>
+    simp only [runFrame]
+    exact LocStep.pre (s1 := setupK s k sys) (by simp) (by simp) (locStep_cleanupK _ k e)
+  | gc => simp only [runFrame, doGc]; split <;> eclose
+  | despawnWork work =>
+    simp only [runFrame, doDespawnWork]
+    split
+    · exact Or.inl rfl
+    · split
+      · exact (locStep_despawn1 s _ e).post rfl rfl
+      · split <;> eclose
+  | poll => exact Or.inl (by simp [runFrame, doPoll, St.push])
+
+theorem startTop_loc (s : St) (t : Nat) (op : TopOp) (e : Nat) : LocStep e s (startTop s t op) := by
+  unfold startTop
+  cases op <;> dsimp only
+  case wDespawn x => exact LocStep.pre (s1 := s.emit (.top t)) rfl rfl (locStep_despawn1 _ x e)
+  case wRemove x ty => exact LocStep.pre (s1 := s.emit (.top t)) rfl rfl (applyCmd_loc_other _ _ e (by simp [touchesLocal]))
+  case wInsertRaw x ty v => exact LocStep.pre (s1 := s.emit (.top t)) rfl rfl (applyCmd_loc_other _ _ e (by simp [touchesLocal]))
+  case wSysEvent sys ty pid => exact Or.inl (by simp [applyCmd, St.push, St.emit, St.fresh])
+  case wBroadcast ty pid => exact LocStep.pre (s1 := (s.emit (.top t)).emit (.send pid)) rfl rfl (applyCmd_loc_other _ _ e (by simp [touchesLocal]))
+  case wEntityEvent x ty pid => exact LocStep.pre (s1 := (s.emit (.top t)).emit (.send pid)) rfl rfl (applyCmd_loc_other _ _ e (by simp [touchesLocal]))
+  all_goals (try split) <;> exact Or.inl (by first | rfl | (simp [St.push, St.emit]; done))
+
+/-- **Entity-world-reactor local data moves only by the reactor's own add / remove commands on that entity, or the
+    entity's death.** -/
+theorem local_stable {p : Prog} {hh : Hist} {s s' : St} (ht : tick p hh s = some s') (e : Nat) :
+    s'.ewLocal e = s.ewLocal e ∨ (s.alive e = true ∧ s'.alive e = false) ∨ ∃ c, nextCmd s = some c ∧ touchesLocal e c := by
+  unfold tick at ht
+  split at ht
+  · rename_i s'' hs
+    simp only [Option.some.injEq] at ht; subst ht
+    unfold step at hs
+    cases hst : s.stack with
+    | nil => rw [hst] at hs; cases hs
+    | cons f rest =>
+      rw [hst] at hs
+      simp only [Option.some.injEq] at hs; subst hs
+      by_cases hq : ∃ c cs, f = .batch (c :: cs) ∧ touchesLocal e c
+      · obtain ⟨c, cs, rfl, hc⟩ := hq
+        exact Or.inr (Or.inr ⟨c, by simp [nextCmd, hst], hc⟩)
+      · rcases runFrame_loc p hh ({ s with stack := rest } : St) f e (fun c cs hf hc => hq ⟨c, cs, hf, hc⟩) with h | h
+        · exact Or.inl h
+        · exact Or.inr (Or.inl h)
+  · split at ht
+    · simp only [Option.some.injEq] at ht; subst ht
+      rcases startTop_loc ({ s with topIdx := s.topIdx + 1 } : St) s.topIdx _ e with h | h
+      · exact Or.inl h
+      · exact Or.inr (Or.inl h)
+    · cases ht
+
+theorem local_stable_run {p : Prog} {hh : Hist} (e : Nat) {s s' : St}
+    (h : QuietRun p hh (fun x => (∃ c, nextCmd x = some c ∧ touchesLocal e c) ∨ x.alive e = false) s s') (halive : s'.alive e = true) :
+    s'.ewLocal e = s.ewLocal e := by
+  induction h with
+  | refl => rfl
+  | @tick s1 s2 _ hq ht ih =>
+    have ha1 : s1.alive e = true := by
+      cases h : s1.alive e with
+      | true => rfl
+      | false => exact absurd (Or.inr h) hq
+    rcases local_stable ht e with h1 | h1 | h1
+    · rw [h1]; exact ih ha1
+    · rw [h1.2] at halive; cases halive
+    · exact absurd (Or.inl h1) hq
+
+end Cobweb
